@@ -9,7 +9,10 @@
     * `try_into()` / `try_from`       checked; `.unwrap()` → panic, `.map_err(..)?` → error
     * `assert!`                       panics in both profiles
 
-  Where each field is narrowed (fontc 61b7940, write-fonts 0.49.2, font-types 0.12.5):
+  Two pipelines: `fieldPipelineOld` = fontc 61b7940 (before the fixes), `fieldPipeline` = the current tree with the range
+  checks of d8817db / 944e88e / f8fa190 in front of the narrowing sites below (section 3b).
+
+  Where each field is narrowed (line numbers of fontc 61b7940, write-fonts 0.49.2, font-types 0.12.5):
     outline x / y           write-fonts tables/glyf/simple.rs:403-407  `pt.point.ot_round()` : (i16,i16); round.rs:17 `(x+0.5).floor() as i16`
     glyf point delta        write-fonts tables/glyf/simple.rs:113-114  `point.x - last_x` on i16 (unchecked `-`)
     contour end point       write-fonts tables/glyf/simple.rs:281      `(cur as u16 - 1)` (wrapping cast, then unchecked `-`)
